@@ -188,6 +188,65 @@ def mixed_case(r1, r2, opt):
   return True if not _same_kinds(rows) else _check(rows, opt, count_all=True)
 
 
+# ---------------------------------------------------------------------------------------------------------------
+# reconstruction: the input is rebuilt from the produced tables alone (scalar columns, Ref:<T>_<key> columns for nested
+# objects, the back-reference column named after the parent table for array elements) and compared with the input; rows
+# may use one key for an object in one record and for an array in another (both live in the same sub-table)
+
+_HET = [{"a": {"b": 1}}, {"a": [{"b": 2}, {"b": 3}]}, {"a": [1, 2]}, {"a": [{"b": 1}, 5]}, {"b": "x"}, {"a": {"a": {"b": 1}}},
+        {"a": [{"a": [{"b": 1}]}]}, {"a": {"b": 1}, "b": [7]}, {"a": [], "b": 1}, {"a": {"a": [1]}},
+        {"a": [{"a": {"b": "y"}}, {"a": [{"b": "z"}]}]}, {}]
+
+
+def _norm(v):
+  """what the tables can represent: no nulls, no empty containers"""
+  if isinstance(v, dict):
+    out = {k: _norm(x) for k, x in v.items()}
+    return {k: x for k, x in out.items() if x not in (None, {}, [])}
+  if isinstance(v, list):
+    return [y for y in (_norm(x) for x in v) if y not in (None, {}, [])]
+  return v
+
+
+def _reconstruct(res, nitems, main="N"):
+  tables = {t["table_name"]: {m["id"]: (m["type"], col) for m, col in zip(t["column_metadata"], t["table_data"])} for t in res["tables"]}
+
+  def rec(T, i):
+    c = tables[T]
+    if "" in c and c[""][1][i - 1] is not None:
+      return c[""][1][i - 1]
+    obj = {}
+    for cid, (ty, data) in c.items():
+      v = data[i - 1]
+      if cid == "" or v is None:
+        continue
+      if ty.startswith("Ref:"):
+        if ty[4:] == T + "_" + cid:
+          obj[cid] = rec(ty[4:], v)
+      else:
+        obj[cid] = v
+    for k in ("a", "b"):
+      S = T + "_" + k
+      if S in tables and T in tables[S] and tables[S][T][0] == "Ref:" + T:
+        arr = [rec(S, j + 1) for j, par in enumerate(tables[S][T][1]) if par == i]
+        if arr:
+          if k in obj:
+            raise AssertionError("row %d of %s has both an object and array elements under key %r" % (i, T, k))
+          obj[k] = arr
+    return obj
+  return [rec(main, i + 1) for i in range(nitems)] if main in tables else [{} for _ in range(nitems)]
+
+
+def hetero_case(r1, r2, r3):
+  rows = [_HET[r1], _HET[r2]] + ([_HET[r3]] if r3 is not None else [])
+  res = import_json.dumps(rows, "N", {"includes": "", "excludes": ""})
+  got = [_norm(x) for x in _reconstruct(res, len(rows))]
+  want = [_norm(x) for x in rows]
+  if got != want:
+    raise AssertionError("input %r: the tables reconstruct to %r" % (rows, got))
+  return _check(rows, 0)
+
+
 OBLIGATIONS = [
   {"func": "flat_ints", "cond_timeout": 100, "desc": "<= 2 flat objects, each key set out of {a, b} (20 shapes), unbounded int or null values (symbolic)"},
   {"func": "flat_strs", "cond_timeout": 60, "desc": "same shapes, str (len <= 1) or null values (symbolic)"},
@@ -203,6 +262,9 @@ ENUM = [
    "desc": "1-2 rows from %d nested-object shapes x %d include/exclude options" % (len(_OBJ), len(OPTS))},
   {"func": "arrays_case", "domains": {"r1": _M, "r2": [None] + _M, "opt": list(range(len(OPTS)))}, "max_s": 200,
    "desc": "1-2 rows from %d array shapes x options" % len(_ARR)},
+  {"func": "hetero_case", "domains": {"r1": list(range(len(_HET))), "r2": list(range(len(_HET))), "r3": [None] + list(range(len(_HET)))}, "shard_by": "r1", "max_s": 200,
+   "desc": "2-3 records out of %d shapes in which one key is an object in one record and an array (of objects / scalars) in another: the input is "
+           "reconstructed from the tables alone (nested-object references, back-references of array elements)" % len(_HET)},
   {"func": "mixed_case", "domains": {"r1": _N, "r2": _M, "opt": list(range(len(OPTS)))}, "max_s": 200, "desc": "an object row and an array row"},
 ]
 BOUNDS = {"keys": KEYS, "rows": "<= 2", "depth": "<= 3", "options (includes, excludes)": OPTS}
